@@ -16,6 +16,7 @@ Search: real solves of the live model vs a freshly built model with Constant(cur
        value), after every update."""
 from __future__ import annotations
 
+import itertools
 import random
 import warnings
 import numpy as np
@@ -78,6 +79,90 @@ def fresh_with_constants(e):
     if isinstance(e, V.LinearCombination) and hasattr(e.vector, "_expressions"):
         return V.LinearCombination(e.coefficients, V.VectorExpression([fresh_with_constants(t) for t in e.vector._expressions]))
     return e   # vector nodes over plain variables hold no parameters
+
+
+def value_kinds(rep):
+    """Every way a user may hold a parameter value - Python numbers, NumPy scalars, 0-d and 1-d arrays of integer or floating
+    dtype, two parameters created from one array, VectorParameter - initialised with one kind and updated with another: what is
+    observed afterwards is computed from the value LAST PASSED TO set(), against closed forms in NumPy."""
+    import optyx.core.compiler as C
+    from optyx import Parameter, Variable, Problem
+    checked = bad = 0
+    x = Variable("x", lb=-10.0, ub=10.0)
+    at = 2.0
+    def report(what, got, want, detail):
+        nonlocal bad
+        bad += 1
+        if bad <= 12:
+            rep.violation({"kind": "value-kinds", "obligation": "after set(v) every observation is computed from v",
+                           "witness": dict(detail, what=what, got=np.asarray(got, dtype=float).tolist(), expected=np.asarray(want, dtype=float).tolist())},
+                          concrete=True)
+    inits = {"py-int": 3, "py-float": 3.0, "np.int64": np.int64(3), "np.float32": np.float32(3.0), "0-d int array": np.array(3),
+             "0-d float array": np.array(3.0), "np.int32": np.int32(3)}
+    updates = {"py-float": 2.5, "np.float64": np.float64(2.5), "0-d float array": np.array(2.5), "np.float32": np.float32(0.75),
+               "py-int": 4, "np.int64": np.int64(4), "0-d negative": np.array(-1.25)}
+    for (ik, iv), (uk, uv) in itertools.product(inits.items(), updates.items()):
+        p = Parameter("t", value=iv)
+        e = (x - p) ** 2 + p * x
+        f = C.compile_expression(e, [x])
+        gf = C.compile_gradient(e, [x])
+        P = Problem().minimize((x - p) ** 2)
+        with warnings.catch_warnings():
+            warnings.simplefilter("ignore")
+            P.solve()
+            p.set(uv)
+            u = float(uv)
+            obs = {"evaluate": e.evaluate({"x": at}), "compiled before the update": f(np.array([at])),
+                   "gradient compiled before the update": np.asarray(gf(np.array([at]))).reshape(-1)[0],
+                   "re-solve": P.solve().values["x"]}
+        want = {"evaluate": (at - u) ** 2 + u * at, "compiled before the update": (at - u) ** 2 + u * at,
+                "gradient compiled before the update": 2 * (at - u) + u, "re-solve": u}
+        for k in obs:
+            checked += 1
+            tol = 1e-4 if k == "re-solve" else 1e-9
+            if abs(float(np.asarray(obs[k]).reshape(-1)[0]) - want[k]) > tol * max(1.0, abs(want[k])):
+                report(k, obs[k], want[k], {"created_with": ik, "updated_with": uk, "value_passed_to_set": u})
+    # two parameters created from ONE array object; only one of them is updated
+    for base in (np.array(3.0), np.array([1.0, 2.0, 3.0]), np.array([1, 2, 3])):
+        lo, hi = Parameter("lo", value=base), Parameter("hi", value=base)
+        gap = hi * x - lo
+        fn = C.compile_expression(gap, [x])
+        new = np.asarray(base, dtype=float) * 2.5 + 0.25
+        hi.set(new)
+        want = new * at - np.asarray(base, dtype=float)
+        for k, got in (("evaluate", gap.evaluate({"x": at})), ("compiled before the update", fn(np.array([at])))):
+            checked += 1
+            if not np.allclose(np.asarray(got, dtype=float), want, rtol=1e-12, atol=0):
+                report(k, got, want, {"two_parameters_created_from_one_array": base.tolist(), "updated": "hi only", "value_passed_to_set": new.tolist()})
+    # 1-d array parameters: integer dtype at creation, fractional update (and the other way round)
+    for iv, uv in (([1, 2, 3], [0.5, 1.5, 2.5]), (np.array([1, 2, 3]), np.array([0.25, -1.5, 2.75])), ([1.5, 2.5, 3.5], [1, 2, 3]),
+                   (np.array([1.0, 2.0, 3.0], dtype=np.float32), [0.1, 0.2, 0.3])):
+        w = Parameter("w", value=iv)
+        e = w * x + 1.0
+        fn = C.compile_expression(e, [x])
+        w.set(uv)
+        want = np.asarray(uv, dtype=float) * at + 1.0
+        for k, got in (("evaluate", e.evaluate({"x": at})), ("compiled before the update", fn(np.array([at])))):
+            checked += 1
+            if not np.allclose(np.asarray(got, dtype=float), want, rtol=1e-6, atol=0):
+                report(k, got, want, {"created_with": repr(iv), "value_passed_to_set": np.asarray(uv, dtype=float).tolist()})
+    # VectorParameter
+    try:
+        from optyx.core.parameters import VectorParameter
+        vp = VectorParameter("c", 3, values=[1, 2, 3])
+        e = vp[0] * x + vp[2] * x * x - vp[1]
+        fn = C.compile_expression(e, [x])
+        for uv in ([0.5, 1.5, 2.5], np.array([2, 4, 6]), np.array([-0.75, 0.0, 1.25])):
+            vp.set(uv)
+            u = np.asarray(uv, dtype=float)
+            want = u[0] * at + u[2] * at * at - u[1]
+            for k, got in (("evaluate", e.evaluate({"x": at})), ("compiled before the update", fn(np.array([at])))):
+                checked += 1
+                if abs(float(np.asarray(got).reshape(-1)[0]) - want) > 1e-9 * max(1.0, abs(want)):
+                    report(k, got, want, {"VectorParameter": True, "value_passed_to_set": u.tolist()})
+    except ImportError:
+        pass
+    return checked, bad
 
 
 def run(rep: vk.Report):
@@ -222,6 +307,7 @@ def run(rep: vk.Report):
                         rep.violation({"kind": "real-solver", "obligation": "solve after updates = solve of the fresh constant model",
                                        "witness": dict(meta, method=meth, live=[a_sol.status.value, a_sol.values],
                                                        fresh=[b_sol.status.value, b_sol.values])}, concrete=True)
+    kinds_checked, kinds_bad = value_kinds(rep)
     nfails, nund = common.run_classify(IMPORTS, "", NUM_TYPE, nums, NUM_CHECKER) if nums else ([], [])
     for i in nfails:
         rep.violation({"kind": "numeric", "obligation": "observation after updates within the enclosure of the model under the current valuation",
@@ -234,6 +320,8 @@ def run(rep: vk.Report):
                    "compilations, observed after every update at a dyadic point and checked by interval enclosure under the current "
                    "valuation; plus live-vs-fresh real solves")
     cov["samples"] = [x_[:400] for x_ in nums[:3]]
+    cov["value_kind_observations"] = kinds_checked
+    cov["value_kind_disagreements"] = kinds_bad
     cov["observations"] = len(nums)
     cov["undecided"] = len(nund)
     cov["real_solver_comparisons"] = solves
